@@ -20,7 +20,8 @@ ASSUMPTIONS = [
     "the error definition includes the library's documented n^(1/p) normalisation (identical to the plain norm for scalar output and p=inf)",
     "reference vectors with some but not all zero components are not generated (division by zero is outside the statement)",
     "distinct integrand evaluations are counted by the harness as distinct coordinate tuples passed to the integrand since operation.initialize()",
-    "prefix comparison: point counts exact, errors 1e-12 relative; max_time stopping is not checked (wall clock)",
+    "prefix comparison: point counts exact, errors 1e-12 relative",
+    "max_time (a quarter of the cases): the clock is owned by the harness (drive.FakeClock, tick tape from the case); asserted is only that a time-limited run ends in the state of one of its evaluations (arrays, no refinement after the last evaluation, reported result, prefix of the unlimited history), not at which reading the driver notices the budget",
 ]
 
 
@@ -107,7 +108,7 @@ def all_objects(sa, kind):
     return list(sa.refinement.get_objects())
 
 
-def run_limited(sa, op, err, case, tol, min_ev, max_ev, maxsteps, hooks=None):
+def run_limited(sa, op, err, case, tol, min_ev, max_ev, maxsteps, hooks=None, clock=None):
     """performSpatiallyAdaptiv with the given limits; counts refine() calls; returns (result tuple or None, refines)"""
     state = dict(refines=0, evals=0)
     orig_refine, orig_eval = sa.refine, sa.evaluate_operation
@@ -129,8 +130,10 @@ def run_limited(sa, op, err, case, tol, min_ev, max_ev, maxsteps, hooks=None):
     lmin = case["lmin"]
     lmax = case["lmax"] if case["kind"] != "cell" else case["lmin"]
     try:
-        with drive.quiet():
+        with drive.quiet(), drive.harness_clock(clock):
             extra = dict(evaluation_points=[tuple(q) for q in case["evalpts"]]) if case.get("evalpts") and case["kind"] == "dw" else {}
+            if clock:
+                extra["max_time"] = float(clock["max_time"])
             res = sa.performSpatiallyAdaptiv(lmin, lmax, err, tol=tol, max_evaluations=max_ev, min_evaluations=min_ev,
                                              print_output=False, **extra)
     except drive.StopHistory:
@@ -287,6 +290,35 @@ def run(case):
             nt = True
         if kstar == 0:
             out.cls("limit-met-at-first-evaluation")
+    if case.get("clock") and res is not None:
+        # documented stopping rule max_time under a clock owned by the harness (drive.FakeClock; every reading advances it by
+        # the next tick): whenever and wherever the budget runs out, the run must end in the state of one of its evaluations -
+        # one array entry per evaluation, no refinement after the last evaluation, the reported result is that of the last
+        # evaluation and the history is a prefix of the unlimited one.  (How many readings the driver takes is its own
+        # business, so the model does not predict WHICH evaluation is the last one.)
+        seen4 = set()
+        sa4, op4, err4 = build(case, seen4)
+        results4 = []
+        res4, nref4 = run_limited(sa4, op4, err4, case, -1, 1, case["maxev"], 45, clock=case["clock"],
+                                  hooks=lambda k: results4.append(np.array(op4.get_result(), dtype=float).copy()))
+        tag4 = "max_time=%r with harness clock %r" % (case["clock"]["max_time"], case["clock"])
+        if res4 is not None:
+            E4, N4, S4 = [float(x) for x in res4[5]], [int(x) for x in res4[6]], [float(x) for x in res4[7]]
+            nev = len(results4)
+            if not (len(E4) == len(N4) == len(S4) == nev):
+                out.bad(sub + "/max_time/history-arrays-length", "%s: %d evaluations, arrays %d/%d/%d" % (tag4, nev, len(E4), len(N4), len(S4)))
+            else:
+                if nref4 != nev - 1:
+                    out.bad(sub + "/max_time/refined-after-the-last-evaluation", "%s: %d refinement steps, %d evaluations" % (tag4, nref4, nev))
+                if N4 != N[:nev]:
+                    out.bad(sub + "/max_time/not-a-prefix-of-the-unlimited-run/point-counts", "%s: %s vs %s" % (tag4, N4, N[:nev]))
+                elif not np.allclose(np.asarray(res4[3], dtype=float), rec["results"][nev - 1], rtol=1e-12, atol=1e-300):
+                    out.bad(sub + "/max_time/reported-result-is-not-that-of-the-last-evaluation", "%s: %s vs %s" % (tag4, res4[3], rec["results"][nev - 1]))
+                if snapshot(sa4, kind) != rec["snaps"][nev - 1] and N4 == N[:nev]:
+                    out.bad(sub + "/max_time/refinement-structure-not-that-of-the-last-evaluation", tag4)
+                if N4 and N4[-1] != len(seen4):
+                    out.bad(sub + "/max_time/point-count-not-distinct-evaluations", "%s: reported %d, evaluated %d" % (tag4, N4[-1], len(seen4)))
+                out.cls("max_time/stopped-at-evaluation-%s" % ("0" if nev == 1 else ("last" if nev == len(N) else "inner")))
     out.nontrivial = nt
     out.cls("norm=%s" % p, "nout=%d" % case["nout"], "reference=%s" % case["refmode"], "fscale=%g" % case.get("fscale", 1.0))
     if kind == "dw":
@@ -343,6 +375,10 @@ def _strategy(kind):
             c["triples"] = draw(st.lists(st.tuples(st.integers(0, 40), st.sampled_from([0, 1, 1, 2, 3]), st.integers(0, 40), st.sampled_from([0, 0, 1, 2, 3]),
                                                    st.integers(0, 40), st.sampled_from([0, 1, 2, 3, 4])).map(list), min_size=1, max_size=3))
             c["nocache"] = draw(st.sampled_from([False, False, True]))
+            if draw(st.integers(0, 3)) == 0:
+                c["clock"] = dict(ticks=draw(st.lists(st.sampled_from([1.0, 0.25, 1.0, 0.0, 3.0]), min_size=1, max_size=6)),
+                                  model=draw(st.sampled_from(["same", "same", "same", "epoch"])),
+                                  max_time=draw(st.sampled_from([2.5, 3.5, 1.5, 6.0, 0.9, 4.5, 0.1])))
             if kind == "dw" and draw(st.integers(0, 2)) == 0:
                 # driver option evaluation_points (non-dyadic interior positions); dimension-wise only: the extend-split
                 # interpolation evaluates the integrand at further points after the count of the step was taken (observed on
